@@ -1,0 +1,53 @@
+//go:build verif
+
+package actionlint
+
+// Exported wrappers of unexported parts of the shellcheck / pyflakes integration for the
+// verification harness (property C20).
+
+// VerifSanitizeExpressionsInScript exposes sanitizeExpressionsInScript.
+func VerifSanitizeExpressionsInScript(src string) string {
+	return sanitizeExpressionsInScript(src)
+}
+
+// VerifCmdExecutionRun runs one command exactly like the external command runner does and returns
+// what cmdExecution.run returned.
+func VerifCmdExecutionRun(cmd string, args []string, stdin string, combineOutput bool) ([]byte, error) {
+	e := &cmdExecution{cmd, args, stdin, combineOutput}
+	return e.run()
+}
+
+// VerifPyflakesParse feeds stdout to RulePyflakes.parseNextError in the same loop as the callback of
+// runPyflakes and returns the messages of the reported diagnostics and the error.
+func VerifPyflakesParse(stdout []byte) ([]string, error) {
+	rule := newRulePyflakes(nil)
+	pos := &Pos{Line: 1, Col: 1}
+	var err error
+	for len(stdout) > 0 {
+		if stdout, err = rule.parseNextError(stdout, pos); err != nil {
+			break
+		}
+	}
+	msgs := []string{}
+	for _, e := range rule.Errs() {
+		msgs = append(msgs, e.Message)
+	}
+	return msgs, err
+}
+
+// VerifShellcheckShell returns the shell name RuleShellcheck selects for a run step given the
+// values stored by VisitWorkflowPre/VisitJobPre ("" = not set), and VerifPyflakesIsPython does
+// the same for RulePyflakes (kinds: 0 unspecified, 1 python, 2 not python).
+func VerifShellcheckShell(step *String, jobShell, workflowShell, runnerShell string) string {
+	rule := newRuleShellcheck(nil)
+	rule.jobShell, rule.workflowShell, rule.runnerShell = jobShell, workflowShell, runnerShell
+	return rule.getShellName(&ExecRun{Shell: step})
+}
+
+// VerifPyflakesIsPython exposes RulePyflakes.isPythonShell for given job / workflow defaults.
+func VerifPyflakesIsPython(step, job, workflow *String) bool {
+	rule := newRulePyflakes(nil)
+	rule.jobShellIsPython = getShellIsPythonKind(job)
+	rule.workflowShellIsPython = getShellIsPythonKind(workflow)
+	return rule.isPythonShell(&ExecRun{Shell: step})
+}
